@@ -171,10 +171,10 @@ func record(n int, seed int64) {
 		chanOf(w.ch, false, w.variant).Close()
 		rec.Log(rt.Event{"ev": "ret", "id": id, "res": "done"})
 		ok = ok && quiet()
-		for round := 0; ok && round < 50; round++ {
+		for finished := false; !finished; {
 			select {
 			case <-done:
-				round = 1000
+				finished = true
 				continue
 			default:
 			}
@@ -189,7 +189,12 @@ func record(n int, seed int64) {
 				c.cancel()
 				rec.Log(rt.Event{"ev": "ret", "id": cid, "res": "done"})
 			}
-			ok = ok && quiet()
+			if ok {
+				ok = quiet()
+			} else {
+				// no quiescent point was reached (the history is dropped as inconclusive): just let everybody finish
+				runtime.Gosched()
+			}
 		}
 		<-done
 		side.Wait()
